@@ -116,14 +116,15 @@ Definition has_type (v : json) (t : jtype) : bool :=
   | _, _ => false
   end.
 
-(* A schema object is the conjunction (SAnd) of its keywords; `properties` and `additionalProperties` are one
-   keyword because the second is defined relative to the first. *)
+(* A schema object is the conjunction (SAnd) of its keywords; `properties`, `patternProperties` and
+   `additionalProperties` are one keyword because the third is defined relative to the first two.  The patterns of
+   patternProperties are kept as strings (jsonschema prints them in its message), in the schema's (dict) order. *)
 Inductive schema :=
 | SBool (b : bool)
 | SAnd (l : list schema)                 (* {k1:…, k2:…} and allOf *)
 | SType (ts : list jtype)
 | SRequired (ks : list str)
-| SProps (ps : list (str * schema)) (addl : option schema)
+| SProps (ps : list (str * schema)) (pps : list (str * schema)) (addl : option schema)
 | SItems (s : schema)
 | SMin (q : Q) | SMax (q : Q) | SExMin (q : Q) | SExMax (q : Q)
 | SMinLen (n : Q) | SMaxLen (n : Q) | SMinItems (n : Q) | SMaxItems (n : Q) | SMinProps (n : Q) | SMaxProps (n : Q)
@@ -137,8 +138,25 @@ Definition Qltb (x y : Q) : bool := negb (Qle_bool y x).
 Definition lenQ {A} (l : list A) : Q := inject_Z (Z.of_nat (List.length l)).
 Definition count_true (l : list bool) : nat := List.length (filter (fun b => b) l).
 
+(* Python's sorted() on strings *)
+Fixpoint insert_str (x : str) (l : list str) : list str :=
+  match l with [] => [x] | y :: r => if str_leb x y then x :: l else y :: insert_str x r end.
+Definition sort_strs (l : list str) : list str := fold_right insert_str [] l.
+
+(* jsonschema._utils.find_additional_properties:   patterns = "|".join(schema.get("patternProperties", {}));
+   a key is "matched" when `patterns and re.search(patterns, key)`.  The joined string is empty (falsy) when there is
+   no pattern or when the only pattern is the empty string - then NO key counts as matched (although the keyword
+   patternProperties itself applies the empty pattern to every key).
+   pm pats k stands for  re.search("|".join(pats), k) is not None  - an oracle; it is indexed by the SORTED list of
+   patterns (the order of the alternatives does not change whether some alternative matches). *)
+Definition joined_empty (pats : list str) : bool :=
+  match pats with [] => true | [ [] ] => true | _ => false end.
+Definition pat_matched (pm : list str -> str -> bool) (pats : list str) (k : str) : bool :=
+  negb (joined_empty pats) && pm pats k.
+
 Section Conforms.
   Variable rxm : N -> str -> bool.       (* re.search(pattern number rx, s) is not None *)
+  Variable pm : list str -> str -> bool. (* re.search("|".join(pats), key) is not None, for patternProperties *)
 
   Fixpoint conforms (s : schema) (v : json) : bool :=
     match s with
@@ -146,15 +164,25 @@ Section Conforms.
     | SAnd l => forallb (fun k => conforms k v) l
     | SType ts => existsb (has_type v) ts
     | SRequired ks => match v with JObj kvs => forallb (fun k => mem_str k (keys kvs)) ks | _ => true end
-    | SProps ps addl =>
+    | SProps ps pps addl =>
         match v with
         | JObj kvs =>
             forallb (fun kv : str * json =>
+              (* properties: the declared key's sub-schema *)
               (fix find (ps : list (str * schema)) : bool :=
                  match ps with
-                 | [] => match addl with Some a => conforms a (snd kv) | None => true end
+                 | [] => true
                  | (k, sub) :: ps' => if str_eqb (fst kv) k then conforms sub (snd kv) else find ps'
-                 end) ps) kvs
+                 end) ps &&
+              (* patternProperties: the sub-schema of EVERY pattern that matches the key (re.search(pattern, key)) *)
+              (fix allp (pps : list (str * schema)) : bool :=
+                 match pps with
+                 | [] => true
+                 | (p, sub) :: r => (if pm [p] (fst kv) then conforms sub (snd kv) else true) && allp r
+                 end) pps &&
+              (* additionalProperties: keys that are neither declared nor matched (find_additional_properties) *)
+              (if mem_str (fst kv) (map fst ps) || pat_matched pm (sort_strs (map fst pps)) (fst kv) then true
+               else match addl with Some a => conforms a (snd kv) | None => true end)) kvs
         | _ => true
         end
     | SItems sub => match v with JArr l => forallb (conforms sub) l | _ => true end
@@ -274,10 +302,6 @@ Fixpoint join_reprs (ks : list str) : str :=
 Definition addl_prefix : str := codes "Additional properties are not allowed (".
 Definition addl_suffix (n : nat) : str := if Nat.eqb n 1 then codes " was unexpected)" else codes " were unexpected)".
 Definition addl_message (extras : list str) : str := addl_prefix ++ join_reprs extras ++ addl_suffix (List.length extras).
-
-Fixpoint insert_str (x : str) (l : list str) : list str :=
-  match l with [] => [x] | y :: r => if str_leb x y then x :: l else y :: insert_str x r end.
-Definition sort_strs (l : list str) : list str := fold_right insert_str [] l.
 
 (* jsonschema._utils.find_additional_properties without patternProperties *)
 Definition extras_of (inst : json) (sprops : list str) : list str :=
